@@ -333,6 +333,8 @@ def run_property(prop: str, tier: str, base_seed: int, workers: int, budget_s: f
                     done = f
                     break
                 futs.discard(done)
+                if done.cancelled():
+                    continue
                 absorb(done.result())
                 elapsed = time.time() - t0
                 more = (not stop) and (elapsed < budget_s or agg["runs"] < min_runs) \
